@@ -524,9 +524,9 @@ Proof.
     exists kb. apply keybytes_hex. exact Hk. }
   exists (unhex (entries t [])). split; [apply iterate_entries; assumption|]. split.
   - intros k v. unfold unhex. rewrite in_map_iff. split.
-    + intros ([q v'] & Eq & Hin). simpl in Eq. inversion Eq; subst v'. clear Eq.
+    + intros ([q v'] & Eq & Hin). simpl in Eq. injection Eq as Ek Ev. subst v'.
       apply (entries_lk_root t q v C) in Hin. destruct (K _ _ Hin) as (kb & Hk & -> & Hf).
-      rewrite (keybytes_hex _ Hk) in H0. subst kb. auto.
+      rewrite (keybytes_hex _ Hk) in Ek. subst kb. auto.
     + intros [Hk Hf]. exists (keybytes_to_hex k, v). simpl. rewrite (keybytes_hex _ Hk).
       split; [reflexivity|]. apply (entries_lk_root t _ v C). rewrite Lk.
       rewrite (apply_ops_hex ops HB (fun _ => None) (fun _ => None) k Hk eq_refl). exact Hf.
@@ -537,4 +537,17 @@ Proof.
     apply (entries_lk_root t qa va C) in Ha. apply (entries_lk_root t qb vb C) in Hb.
     destruct (K _ _ Ha) as (ka & Hka & -> & _). destruct (K _ _ Hb) as (kb & Hkb & -> & _).
     rewrite (keybytes_hex _ Hka), (keybytes_hex _ Hkb). rewrite <- hltb_hex by assumption. exact Hab.
+Qed.
+
+(* the same after any history mixing single updates and batches *)
+Corollary iter_sorted_complete_hist resolve hs t :
+  Forall hop_ok hs -> run_hist resolve NEmpty hs = TOk t ->
+  exists L, trie_iterate t = TOk L /\
+    (forall k v, In (k, v) L <-> bytes_key k /\ final_map (flat_map hop_kvs hs) k = Some v) /\
+    StronglySorted blt_ent L.
+Proof.
+  intros Hok Hr.
+  destruct (history_eq_sequential resolve hs Hok NEmpty (or_introl eq_refl)) as (t' & ev & R & S & _).
+  rewrite R in Hr. inversion Hr; subst t'.
+  exact (iter_sorted_complete resolve _ t ev (hist_bytes_ops resolve _ Hok) S).
 Qed.
